@@ -15,7 +15,7 @@ Oracle for every non-empty result m = unify_types(target, pattern):
   satisfy that variable's bound; every m[v] must satisfy v's bound."""
 from hypothesis import strategies as st
 
-from vlib import boot, hyp, rm, tg
+from vlib import boot, fuzz, hyp, rm, tg
 
 LEVEL = 'exploration'
 RULE = ('case = (class table, target, pattern, mode); constructive generalisation of ground targets (depth <= 3, projections, '
@@ -257,20 +257,31 @@ def mismatch(R, sp, t, mm, pvars):
     return ('differs', '%s vs %s' % (rm.show(sp), rm.show(t)))
 
 
-def run_shard(spec, col):
-    boot.init_types_only()
-    lang = spec['lang']
-    strategy = cases(lang)
-    found = {}
-
+def make_one(col, found):
     def one(case):
         u, t, p, mode, kind = case
         for sig, d in judge(u, t, p, mode, kind, col):
             col.violation(sig, dict(d, table=u.describe()), {'universe': u.spec(), 'T': t, 'P': p, 'mode': mode, 'kind': kind},
                           size=len(str(t)) + len(str(p)) + 20 * len(u.order))
             found[sig] = 1
+    return one
+
+
+def fuzz_entry(spec, col):
+    """coverage-guided leg (vlib/fuzz.py): same strategy, same judge."""
+    boot.init_types_only()
+    return cases(spec['lang']), make_one(col, {})
+
+
+def run_shard(spec, col):
+    boot.init_types_only()
+    lang = spec['lang']
+    strategy = cases(lang)
+    found = {}
+    one = make_one(col, found)
     n = 700 if col.tier == 'quick' else 25000
     hyp.explore(strategy, one, n, col.shard_seed())
+    fuzz.campaign('C10', spec, col, runs=400 if col.tier == 'quick' else 20000)
     for sig in sorted(found)[:3]:
         best = {}
 
